@@ -534,3 +534,170 @@ func (e *itMap) itLoadedHoles(mk func() atree.DigesterBuilder) {
 		e.loadedExact(fmt.Sprintf("map with everything loaded but the %s slab %s", kind, hx.IDStr(drop)), fresh, got)
 	}
 }
+
+// ---------------------------------------------------------------------------------------------
+// parents whose elements are child containers (iternest.go, no model): a stand-alone child is a
+// SlabIDStorable to its root slab - getLoadedValue skips it iff that ROOT slab is unloaded, whatever
+// else of the child is loaded; an INLINED child is part of the parent's data slab and is always
+// yielded; the further slabs of a stand-alone child do not matter for the parent's yield.
+
+// loadedPartial runs the parent's loaded-value iterator on fresh storages holding a subset of the
+// committed slabs and requires exactly the slots whose slabs are loaded, in order, each yielded
+// child equal to its shadow.  The parent must be committed.
+func (e *inEnv) loadedPartial(when string) {
+	if e.failed {
+		return
+	}
+	rootID := atree.SlabIDUndefined
+	if e.isMap {
+		rootID = e.pm.SlabID()
+	} else {
+		rootID = e.pa.SlabID()
+	}
+	ref := hx.NewStorage(e.ledger)
+	root, ok, err := ref.Retrieve(rootID)
+	if err != nil || !ok {
+		e.viol(when + ": committed parent root cannot be read: " + errLine(err))
+		return
+	}
+	entries, problem := ldWalk(ref, root)
+	if problem != "" {
+		e.viol(when + ": structural walk of the committed parent: " + problem)
+		return
+	}
+	if len(entries) != len(e.slots) {
+		e.viol(fmt.Sprintf("%s: the data slabs of the committed parent hold %d elements, the shadow has %d", when, len(entries), len(e.slots)))
+		return
+	}
+	for i := range entries {
+		_, isPlain := entries[i].val.(hx.TV)
+		if isPlain != (e.slots[i].child == nil) {
+			e.viol(fmt.Sprintf("%s: slot %d of the committed parent holds %s, the shadow says child=%v", when, i, itRenderStorable(entries[i].val), e.slots[i].child != nil))
+			return
+		}
+	}
+	ids := e.ledger.SortedIDs()
+	tree := treeIDs(ref, root) // the parent's own slabs
+	cands := ldHoleCandidates(entries, rootID)
+	for mode := 0; mode < 6 && !e.failed; mode++ {
+		fresh := hx.NewStorage(e.ledger)
+		skip := map[atree.SlabID]bool{}
+		switch mode {
+		case 0: // everything but the root of one stand-alone child that further elements of its data slab follow
+			if c := cands["value"]; len(c) > 0 {
+				skip[c[e.rng.Intn(len(c))]] = true
+			}
+		case 1: // the parent's own tree only: no stand-alone child is loaded
+			for _, id := range ids {
+				skip[id] = !tree[id]
+			}
+		case 2: // everything but one data slab of the parent with later siblings (if the parent has several)
+			if c := cands["child"]; len(c) > 0 {
+				skip[c[e.rng.Intn(len(c))]] = true
+			}
+		case 3: // everything
+		default: // each slab with probability p
+			p := []float64{0.3, 0.6, 0.85}[e.rng.Intn(3)]
+			for _, id := range ids {
+				skip[id] = e.rng.Float64() >= p
+			}
+		}
+		load := func() {
+			for _, id := range ids {
+				if !skip[id] {
+					_, _, _ = fresh.Retrieve(id)
+				}
+			}
+		}
+		before := e.rng.Intn(2) == 0
+		if before {
+			load()
+		}
+		var pa *atree.Array
+		var pm *atree.OrderedMap
+		if e.isMap {
+			pm, err = atree.NewMapWithRootID(fresh, rootID, e.builder())
+		} else {
+			pa, err = atree.NewArrayWithRootID(fresh, rootID)
+		}
+		if err != nil {
+			e.viol(when + ": cannot reopen the committed parent: " + errLine(err))
+			return
+		}
+		if !before {
+			load()
+		}
+		ld := loadedIDs(fresh)
+		exp, misses, holes := ldExpected(entries, fresh, rootID)
+		var keys, vals []atree.Value
+		if e.isMap {
+			err = pm.IterateReadOnlyLoadedValues(func(k, v atree.Value) (bool, error) {
+				keys, vals = append(keys, k), append(vals, v)
+				return true, nil
+			})
+		} else {
+			err = pa.IterateReadOnlyLoadedValues(func(v atree.Value) (bool, error) {
+				vals = append(vals, v)
+				return true, nil
+			})
+		}
+		what := fmt.Sprintf("%s: loaded-value iteration over the parent with %d of %d slabs loaded (mode %d)", when, len(ld), len(ids), mode)
+		if err != nil {
+			e.viol(what + " failed: " + errLine(err))
+			return
+		}
+		if after := loadedIDs(fresh); !sameIDs(ld, after) {
+			e.viol(fmt.Sprintf("%s loaded or dropped slabs: %d before, %d after", what, len(ld), len(after)))
+		}
+		e.st.Hit("nest:loaded:exact")
+		if len(vals) != len(exp) {
+			firstMiss := "none"
+			for i, m := range misses {
+				if m.kind != "" {
+					firstMiss = fmt.Sprintf("slot %d (unloaded %s slab %s)", i, m.kind, hx.IDStr(m.slab))
+					break
+				}
+			}
+			e.viol(fmt.Sprintf("%s yielded %d elements; exactly the %d slots (of %d) whose data slab is loaded and whose stand-alone child has its root slab loaded must be yielded; first slot that is not loaded: %s",
+				what, len(vals), len(exp), len(entries), firstMiss))
+			return
+		}
+		inlinedYielded := false
+		for j, i := range exp {
+			sl := e.slots[i]
+			if e.isMap && keys[j] != atree.Value(sl.key) {
+				e.viol(fmt.Sprintf("%s: position %d yielded key %v, the %d-th loaded slot has key %v", what, j, keys[j], j, sl.key))
+				return
+			}
+			if sl.child == nil {
+				if tv, _ := vals[j].(hx.TV); tv != sl.plain {
+					e.viol(fmt.Sprintf("%s: position %d yielded %v, loaded slot %d holds %v", what, j, vals[j], i, sl.plain))
+					return
+				}
+				continue
+			}
+			if d := e.sameChild(vals[j], sl.child); d != "" {
+				e.viol(fmt.Sprintf("%s: position %d must be the child of slot %d, but the yielded value %s", what, j, i, d))
+				return
+			}
+			if _, isRef := entries[i].val.(atree.SlabIDStorable); !isRef {
+				inlinedYielded = true
+			}
+		}
+		if inlinedYielded {
+			e.st.Hit("nest:loaded:inlined-child-yielded")
+		}
+		if holes["value"] {
+			e.st.Hit("nest:loaded:hole:child-root")
+		}
+		if holes["child"] {
+			e.st.Hit("nest:loaded:hole:parent-data-slab")
+		}
+		for _, m := range misses {
+			if m.kind == "value" {
+				e.st.Hit("nest:loaded:standalone-child-unloaded")
+				break
+			}
+		}
+	}
+}
